@@ -191,6 +191,10 @@ Section Proofs.
     pose proof (Forall_nth_error _ _ _ _ (inv_thr _ HI) Hp) as TK;
     destruct (tok_holds _ _ _ _ TK eq_refl) as (v0 & Hv0 & K0 & B0 & R0).
 
+  Ltac TOK v :=
+    eapply (tok_new _ _ v);
+    [reflexivity | first [eassumption | eapply nth_error_upd_same; eassumption] | reflexivity | | ].
+
   Lemma cstep_inv s a s' : Inv s -> cstep ksize true s a = Some s' -> Inv s'.
   Proof.
     intros HI. destruct a as [t k found|t k found|i|t ok|t]; cbn [cstep].
@@ -218,19 +222,19 @@ Section Proofs.
       destruct (cloaded v0 || cerr v0).
       + intros E; inversion E; subst; clear E. unfold set_heap.
         apply (inv_thread_only s i v0 t (GLoad i (ck v0))); auto.
-        * destruct (cerr v0); [|exact I]. eapply tok_new; eauto; cbn; discriminate.
+        * destruct (cerr v0); [|exact I]. TOK v0; cbn; discriminate.
         * destruct (cerr v0); cbn; lia.
       + destruct ok; intros E; inversion E; subst; clear E; unfold set_heap.
         * apply (inv_update s i v0 _ t (GLoad i (ck v0))); auto.
           -- repeat split; cbn; auto.
           -- split; cbn; [reflexivity | exact VC].
-          -- eapply tok_new; [reflexivity | eapply nth_error_upd_same; eauto | reflexivity | reflexivity | cbn; discriminate].
+          -- TOK (mkCV (ck v0) true false (ksize (ck v0)) (cm v0) (cin v0)); [intros _; reflexivity | cbn; discriminate].
           -- unfold base. cbn. lia.
           -- unfold inone. cbn. lia.
         * apply (inv_update s i v0 _ t (GLoad i (ck v0))); auto.
           -- repeat split; cbn; auto.
           -- split; cbn; [exact VS | exact VC].
-          -- eapply tok_new; [reflexivity | eapply nth_error_upd_same; eauto | reflexivity | cbn; discriminate | cbn; discriminate].
+          -- TOK (mkCV (ck v0) false true (cby v0) (cm v0) (cin v0)); cbn; discriminate.
           -- unfold base. cbn. lia.
           -- unfold inone. cbn. lia.
     - (* AStep *)
@@ -243,21 +247,21 @@ Section Proofs.
         * apply (inv_update s i v0 _ t (GCas i (ck v0))); auto.
           -- repeat split; cbn; auto. congruence.
           -- split; cbn; [intros _; exact (B0 eq_refl) | intros _; apply VC; congruence].
-          -- eapply tok_new; [reflexivity | eapply nth_error_upd_same; eauto | reflexivity | intros _; exact (B0 eq_refl) | cbn; discriminate].
+          -- TOK (mkCV (ck v0) (cloaded v0) (cerr v0) (cby v0) Sized (cin v0)); [intros _; exact (B0 eq_refl) | cbn; discriminate].
           -- unfold base. cbn. rewrite M. cbn. lia.
           -- unfold inone. cbn. lia.
-        * apply (inv_thread_only s i v0 t (GCas i (ck v0))); auto. exact I. cbn. lia.
-        * apply (inv_thread_only s i v0 t (GCas i (ck v0))); auto. exact I. cbn. lia.
+        * apply (inv_thread_only s i v0 t (GCas i (ck v0))); auto; [exact I | cbn; lia].
+        * apply (inv_thread_only s i v0 t (GCas i (ck v0))); auto; [exact I | cbn; lia].
       + (* GInc *)
         intros E; inversion E; subst; clear E; unfold set_heap.
-        apply (inv_thread_only s i v0 t (GInc i (ck v0))); auto. exact I.
+        apply (inv_thread_only s i v0 t (GInc i (ck v0))); auto; [exact I|].
         cbn. rewrite (B0 eq_refl). lia.
       + (* GFailMark, repaired: Swap + decrement if Sized *)
         intros E; inversion E; subst; clear E; unfold set_heap.
         apply (inv_update s i v0 _ t (GFailMark i (ck v0))); auto.
         * repeat split; cbn; auto.
         * split; cbn; [discriminate | congruence].
-        * eapply tok_new; [reflexivity | eapply nth_error_upd_same; eauto | reflexivity | cbn; discriminate | reflexivity].
+        * TOK (mkCV (ck v0) (cloaded v0) (cerr v0) (cby v0) Removed (cin v0)); [cbn; discriminate | intros _; reflexivity].
         * unfold base. cbn. destruct (cm v0) eqn:M; cbn; try lia. rewrite (VS eq_refl). lia.
         * unfold inone. cbn. lia.
       + (* GFailUnlink *)
@@ -268,13 +272,13 @@ Section Proofs.
           -- exact I.
           -- unfold base. cbn. lia.
           -- unfold inone. cbn. rewrite C. lia.
-        * apply (inv_thread_only s i v0 t (GFailUnlink i (ck v0))); auto. exact I. cbn. lia.
+        * apply (inv_thread_only s i v0 t (GFailUnlink i (ck v0))); auto; [exact I | cbn; lia].
       + (* PBytes *)
         intros E; inversion E; subst; clear E; unfold set_heap.
         apply (inv_update s i v0 _ t (PBytes i (ck v0))); auto.
         * repeat split; cbn; auto.
         * split; cbn; [reflexivity | exact VC].
-        * eapply tok_new; [reflexivity | eapply nth_error_upd_same; eauto | reflexivity | reflexivity | cbn; discriminate].
+        * TOK (mkCV (ck v0) (cloaded v0) (cerr v0) (ksize (ck v0)) (cm v0) (cin v0)); [intros _; reflexivity | cbn; discriminate].
         * unfold base. cbn. lia.
         * unfold inone. cbn. lia.
       + (* PCas *)
@@ -282,20 +286,20 @@ Section Proofs.
         * apply (inv_update s i v0 _ t (PCas i (ck v0))); auto.
           -- repeat split; cbn; auto. congruence.
           -- split; cbn; [intros _; exact (B0 eq_refl) | intros _; apply VC; congruence].
-          -- eapply tok_new; [reflexivity | eapply nth_error_upd_same; eauto | reflexivity | intros _; exact (B0 eq_refl) | cbn; discriminate].
+          -- TOK (mkCV (ck v0) (cloaded v0) (cerr v0) (cby v0) Sized (cin v0)); [intros _; exact (B0 eq_refl) | cbn; discriminate].
           -- unfold base. cbn. rewrite M. cbn. lia.
           -- unfold inone. cbn. lia.
-        * apply (inv_thread_only s i v0 t (PCas i (ck v0))); auto.
-          eapply tok_new; eauto; cbn; discriminate. cbn. lia.
-        * apply (inv_thread_only s i v0 t (PCas i (ck v0))); auto.
-          eapply tok_new; eauto; cbn; discriminate. cbn. lia.
+        * apply (inv_thread_only s i v0 t (PCas i (ck v0))); auto; [|cbn; lia].
+          TOK v0; cbn; discriminate.
+        * apply (inv_thread_only s i v0 t (PCas i (ck v0))); auto; [|cbn; lia].
+          TOK v0; cbn; discriminate.
       + (* PInc *)
         intros E; inversion E; subst; clear E; unfold set_heap.
-        apply (inv_thread_only s i v0 t (PInc i (ck v0))); auto.
-        eapply tok_new; eauto; cbn; discriminate. cbn. lia.
+        apply (inv_thread_only s i v0 t (PInc i (ck v0))); auto; [|cbn; lia].
+        TOK v0; cbn; discriminate.
       + (* PStore *)
         destruct (cloaded v0) eqn:L; intros E; inversion E; subst; clear E; unfold set_heap.
-        * apply (inv_thread_only s i v0 t (PStore i (ck v0))); auto. exact I. cbn. lia.
+        * apply (inv_thread_only s i v0 t (PStore i (ck v0))); auto; [exact I | cbn; lia].
         * apply (inv_update s i v0 _ t (PStore i (ck v0))); auto.
           -- repeat split; cbn; auto.
           -- split; cbn; [reflexivity | exact VC].
